@@ -36,12 +36,12 @@ BUDGET = {'quick': 60, 'thorough': 700}
 
 INT_POOL = [-2, -1, 0, 1, 2, 3, 10, 9]
 FLOAT_POOL = [-1.5, 0.0, 0.25, 2.0, 1.0]
-STR_POOL = ['a', 'b', 'ab', '', 'a b', 'Z']
+STR_POOL = ['a', 'b', 'ab', '', 'a b', 'Z', 'a1', '1']   # 'a1' + 0 and 'a' + 10 run into each other when parts are concatenated
 MIXED_POOL = ['i:1', 'i:2', 's:"a"', 's:"b"', 'f:2.5', 'b:1', 'N', 'i:10', 'i:9']
 CONFLICT_POOL = ['i:1', 's:"1"', 'f:1.0', 'b:1', 's:"a"', 'i:2']
 TUPLE_POOL = ['t:(i:1 i:2)', 't:(i:3 i:4)', 's:"a"', 'i:5', 't:(i:1)']
 DT_OF = {'int': 'int64', 'float': 'float64', 'str': 'str', 'bool': 'bool', 'date': 'datetime64[D]',
-         'objint': 'object', 'mixed': 'object', 'conflict': 'object', 'tuple': 'object'}
+         'objint': 'object', 'mixed': 'object', 'conflict': 'object', 'tuple': 'object', 'cstr': 'str', 'cint': 'int64'}
 
 
 def rand_keys(rng, n, kind, distinct=None):
@@ -52,6 +52,10 @@ def rand_keys(rng, n, kind, distinct=None):
         pool = [tok(v) for v in rng.sample(FLOAT_POOL, min(distinct, len(FLOAT_POOL)))]
     elif kind == 'str':
         pool = [tok(v) for v in rng.sample(STR_POOL, min(distinct, len(STR_POOL)))]
+    elif kind == 'cstr':
+        pool = [tok(v) for v in ['x1', 'x11', 'a', 'a1']]       # with the 'cint' pool: ('x1', 10) and ('x11', 0) concatenate alike
+    elif kind == 'cint':
+        pool = [tok(v) for v in [0, 10, 1, 11]]
     elif kind == 'bool':
         pool = ['b:0', 'b:1'][:max(1, min(distinct, 2))]
     elif kind == 'date':
@@ -149,6 +153,9 @@ def fgroup_case(rng, n=None, m=None):
             kinds = [rng.choice(['int', 'str', 'bool', 'float', 'objint', 'mixed']) for _ in range(nk)]
             if rng.random() < 0.5:
                 kinds = [kinds[0]] * nk
+            if rng.random() < 0.3:
+                # a text key next to a number key whose parts run into each other when written side by side
+                kinds = (['cstr', 'cint'] + ['cint'] * nk)[:nk]
         cols, layout = fgroup_spec(rng, n, m, keycols, kinds)
         hier = rng.random() < 0.12 and n > 0
         spec = {'index': ih_index(rng, n) if hier else flat_index(rng, n), 'columns': flat_index(rng, m, rng.choice(['int', 'str', 'auto'])),
